@@ -76,13 +76,19 @@ class Tokens:
                 self.at[canon(f.attrs[t])] = t
         p.unlink()
 
+    @staticmethod
+    def _unknown(c: str) -> str:
+        if c.startswith("empty:"):
+            return "?empty"
+        return "?" + c[:24] + "#" + hashlib.sha1(c.encode()).hexdigest()[:16]
+
     def ds_tok(self, x) -> str:
         c = canon(x)
-        return self.ds.get(c, "?" + c[:60])
+        return self.ds.get(c) or self._unknown(c)
 
     def at_tok(self, x) -> str:
         c = canon(x)
-        return self.at.get(c, "?" + c[:60])
+        return self.at.get(c) or self._unknown(c)
 
 
 # --------------------------------------------------------------------------------------
